@@ -39,6 +39,7 @@ fn handle(toks: &[&str]) -> String {
         "resolve" => l1::resolve(&toks[1..]).unwrap_or_else(|| "bad-op".to_string()),
         "mitm" => mitm::run(&toks[1..]).unwrap_or_else(|| "bad-op".to_string()),
         "mkframes" => mitm::mkframes(&toks[1..]).unwrap_or_else(|| "bad-op".to_string()),
+        "key" => l1::key(&toks[1..]).unwrap_or_else(|| "bad-op".to_string()),
         "filt" => l1::filt(&toks[1..]).unwrap_or_else(|| "bad-op".to_string()),
         "rpd" => l1::rpd(&toks[1..]).unwrap_or_else(|| "bad-op".to_string()),
         _ => "bad-op".to_string(),
